@@ -217,3 +217,22 @@ Proof.
   intros Hn. unfold lenient_t. cbn [lenient]. destruct it as [[|x b]|[|x l]]; cbn [nil_item item_eqb bytes_eqb negb];
     split; try discriminate; try reflexivity.
 Qed.
+
+(* ---- stream-style call sites (rlp.Decode on a reader, p2p Msg.Decode) ------------------------ *)
+(* what such a site accepts is the encoding of what it decoded followed by an
+   ARBITRARY unread rest: the value itself is read canonically (outside the
+   lenient places), the rest is not looked at *)
+Theorem stream_accept_prefix s b v rest : wf_schema s = true ->
+  decode_stream_t s b = Some (v, rest) ->
+  exists it, b = encode it ++ rest /\ of_item cdec s it = Some v /\ item_ok it = true /\
+             (lenient_t s it = false -> encode_t s v = Some (encode it)).
+Proof.
+  intros Hwf. unfold decode_stream_t. destruct (bytes_ok b) eqn:Hok; [|discriminate]. cbn [negb].
+  destruct (dec (S (length b)) b) as [[it r]|] eqn:Ed; [|discriminate].
+  destruct (of_item cdec s it) as [v'|] eqn:Eo; [|discriminate]. cbn [option_map].
+  intros H; injection H as <- <-.
+  apply dec_sound in Ed as (Eb & _ & Hi & _); [|assumption].
+  exists it. repeat split; try assumption.
+  intros Hl. unfold encode_t, encode_typed. unfold lenient_t in Hl.
+  now rewrite (to_of cenc cdec _ _ _ Hwf Hi Eo Hl).
+Qed.
